@@ -416,6 +416,10 @@ def exec_for(engine, ctx, st: ast.For, env: Env):
     inv = engine.reg.loops.get((qual, loop_ordinal(env, st)))
     if inv is not None:
         return exec_for_invariant(engine, ctx, st, env, it, inv)
+    from . import strmodel as _sm
+
+    if _sm.ENABLED and _sm.is_symbolic_string(it):
+        return _sm.exec_for_string(engine, ctx, st, env, it)
     if st.orelse:
         raise EngineLimit("for/else over a symbolic domain")
     if not mutates_outer_collections(st.body, env):
@@ -464,8 +468,17 @@ def exec_for_invariant(engine, ctx, st: ast.For, env: Env, it, inv):
     for lab, c in inv_clauses(lo):
         ctx.oblige("%s/inv-init#%s" % (label, lab), lift_bool(c), kind="inv-init")
     # havoc
+    kinds = getattr(inv, "kinds", None) or {}
+    # collections that the body mutates in place (x.add(...)) are loop-carried too: the invariant declares their kind
+    modified = modified + [n for n in kinds if n in env.vars and n not in modified]
     for n in modified:
-        env.vars[n] = fresh_like(engine, ctx, n, env.vars[n])
+        if n in kinds:
+            old_v = env.vars[n]
+            env.vars[n] = ctx.fresh_kind(n, kinds[n])  # kind of a loop-carried variable declared by the invariant
+            if hasattr(env.vars[n], "fresh"):
+                env.vars[n].fresh = getattr(old_v, "fresh", False)  # still the collection this function allocated
+        else:
+            env.vars[n] = fresh_like(engine, ctx, n, env.vars[n])
     i = ctx.fresh("iter", z3.IntSort())
     ctx.assume(i >= lo)
     which = ctx.choose(2)
@@ -575,9 +588,23 @@ def build_comprehension(engine, ctx, e, gen, it, env, kind):
             if all(isinstance(x, int) or (isinstance(x, z3.ExprRef) and z3.is_int(x)) for x in out):
                 return engine.to_symset(ctx, out)
             return V.ValueSet(out)
-    if kind == "dict":
-        raise EngineLimit("dict comprehension over a symbolic domain")
     b = bind_domain(engine, ctx, it)
+    if kind == "dict":
+        # the dictionary itself is not modelled (any later use is an engine limit); its key / value / filter
+        # expressions are evaluated for an arbitrary element so that an exception they could raise is not lost
+        def dbody():
+            cenv = Env(env.module, env, env.finfo)
+            engine.assign(ctx, gen.target, b.value, cenv)
+            for cond in gen.ifs:
+                engine.truth(ctx, engine.eval(ctx, cond, cenv))
+            engine.eval(ctx, e.key, cenv)
+            engine.eval(ctx, e.value, cenv)
+
+        try:
+            run_under_binding(engine, ctx, b, dbody)
+        except PyRaise:
+            raise EngineLimit("dict comprehension over a symbolic domain whose element expressions may raise")
+        return V.Opaque("dict built by a comprehension over a symbolic domain")
     if kind == "set":
         result = SymSet(z3.K(z3.IntSort(), z3.BoolVal(False)), fresh=True)
 
